@@ -84,6 +84,23 @@ def main():
                 name if i == 0 else "", str(meta.get("what_it_breaks", ""))[:160].replace("|", "/") if i == 0 else "",
                 str(meta.get("needs_to_manifest", ""))[:160].replace("|", "/") if i == 0 else "",
                 r.get("property"), "yes" if r.get("detected") else "**no**", how))
+    # summary: a seeded change counts as caught when at least one check reports it
+    tot, caught, cross = 0, 0, []
+    for d in sorted(glob.glob(os.path.join(V, "seeded", "*"))):
+        dets = [json.load(open(x)) for x in sorted(glob.glob(os.path.join(d, "detect_*.json")))]
+        if not dets:
+            continue
+        tot += 1
+        name = os.path.basename(d)
+        own = name.split("_")[0]
+        yes = [r["property"] for r in dets if r.get("detected")]
+        if yes:
+            caught += 1
+        if own not in yes and yes:
+            cross.append("%s (caught by %s, not by %s)" % (name, "/".join(yes), own))
+    L += ["", "**Summary:** %d seeded changes were run, %d are caught by at least one check." % (tot, caught)]
+    if cross:
+        L += ["Caught only by a neighbouring property's check (the change lies in that property's code path): " + "; ".join(cross) + "."]
     L += ["", END]
     p = os.path.join(V, "DESIGN.md")
     s = open(p).read()
